@@ -441,3 +441,43 @@ def r_null_after_strip(cx):
                   "%s compares the grid name with `null` before the `@` prefix is removed: `@null` is treated as a missing "
                   "optional grid and skipped, so the operator has no null grid" % fn, cx.where(f.d["span"]))
     cx.count("R-NULL-AFTER-STRIP", "null_tests", n)
+
+
+@rule("R-NULL-ENDS-LIST", ["C08"])
+def r_null_ends_list(cx):
+    """The null grid answers everywhere, so it ends the search - and the documented behaviour is that it also ends the
+    list: grids named after `null` are ignored (not loaded, not searched, and their absence is no error). In the three
+    constructors that walk a grid list, the branch that records the null grid leaves the loop: the loop header is not
+    reachable again from there."""
+    n = 0
+    for fn in ("inner_op::gridshift::new", "inner_op::deformation::new", "inner_op::deflection::new"):
+        if not cx.f.has_fn(fn):
+            continue
+        f = cx.f.fn(fn)
+        for bb, t in f.calls():
+            c = f.callee(t) or ""
+            if not c.endswith("BTreeSet::<T, A>::insert"):
+                continue
+            a = f.arg_terms(bb)
+            if K.receiver_map(cx.f, a[0]) != "boolean" or K._const_key(a[1]) != "null_grid":
+                continue
+            lp = f.innermost_loop(bb)
+            n += 1
+            nxt = t.get("target")
+            seen, work = set(), [nxt] if (nxt is not None and lp is not None) else []
+            back = False
+            while work:
+                x = work.pop()
+                if x in seen or x not in lp.body:
+                    continue
+                seen.add(x)
+                if x == lp.header:
+                    back = True
+                    break
+                work.extend(f.succ[x])
+            cx.ob("R-NULL-ENDS-LIST", fn, not back,
+                  "%s leaves the grid list loop once the null grid is recorded" % fn if not back else
+                  "%s goes on with the next grid name after recording the null grid: grids listed after `null` are still "
+                  "loaded (and a missing one is an error), contrary to the documented `ignore any additional grids`" % fn,
+                  cx.where(t["span"]))
+    cx.count("R-NULL-ENDS-LIST", "null_records", n)
